@@ -43,6 +43,10 @@ package xml
 //@   inline
 //@   names req, err
 //@   property C06
+//@   ensures C06,C18.unknown-encoding-is-rejected: encoding != "" && encoding != EncodingDeflate ==> err != nil && req == nil
+//@   ensures C06,C18.decodes-exactly-the-decoded-payload: err == nil ==> req != nil && b64ok(message) && umCalls == old(umCalls) + 1 && umObj == req &&
+//@             umData == (encoding == "" ? b64dec(message) : inflate(b64dec(message)))
+//@   canary C06.canary-decoder-always-fails: err != nil
 //@   enter decCalls = decCalls + 1
 //@   enter decEnc = encoding
 //@   enter decMsg = message
@@ -53,6 +57,10 @@ package xml
 //@   inline
 //@   names req, err
 //@   property C13
+//@   ensures C13,C18.unknown-encoding-is-rejected: encoding != "" && encoding != EncodingDeflate ==> err != nil && req == nil
+//@   ensures C13,C18.decodes-exactly-the-decoded-payload: err == nil ==> req != nil && b64ok(message) && umCalls == old(umCalls) + 1 && umObj == req &&
+//@             umData == (encoding == "" ? b64dec(message) : inflate(b64dec(message)))
+//@   canary C13.canary-decoder-always-fails: err != nil
 //@   enter decCalls = decCalls + 1
 //@   enter decEnc = encoding
 //@   enter decMsg = message
